@@ -189,6 +189,17 @@ pub proof fn lemma_collected_from<W>(m: Map<Identifier<TR>, VerifyingShare<TR>>,
     }
 }
 
+// "the even-Y package of p exists" (true in every execution that reaches pre_aggregate: the hook's verified contract exhibits it; a BTreeMap has
+// no spec-level constructor, so it cannot be shown for an arbitrary spec value)
+pub open spec fn tr_pkp_realisable(p: PublicKeyPackage<TR>) -> bool { exists|q: PublicKeyPackage<TR>| tr_pkp_even_is(p, q) }
+// the merkle root argument of sign_with_tweak / aggregate_with_tweak
+pub open spec fn slice_root(o: Option<&[u8]>) -> Option<Seq<u8>> { match o { None => None, Some(r) => Some(r@) } }
+// (broadcast form, for callers that cannot name the tweaked value at a structural anchor)
+pub broadcast proof fn lemma_pkp_tweak_unique_b(p: PublicKeyPackage<TR>, root: Option<Seq<u8>>, q: PublicKeyPackage<TR>)
+    requires #[trigger] tr_pkp_tweak_is(p, root, q)
+    ensures q == tr_pkp_tweak(p, root)
+{ lemma_pkp_tweak_unique(p, root, q); }
+
 // ---------------------------------------------------------------------------------------------------
 // the hooks (what BIP-340 prescribes at each point where the suite departs from RFC 9591)
 
